@@ -74,6 +74,8 @@ CASES = [
      ["MultiplexHypergraph.get_edges@md"], "raises:KeyError:undeclared"),
     ("multiplex: remove_edge leaves the metadata entry", MH, "        if edge_id in self._edge_metadata:\n            del self._edge_metadata[edge_id]\n\n        nodes, layer = edge", "        nodes, layer = edge", 0,
      ["MultiplexHypergraph.remove_edge"], "wf.em_live"),
+    ("add_random_edges draws one node too few", "hypergraphx/generation/random.py", "        edges.add(tuple(sorted(random.sample(nodes, size))))",
+     "        edges.add(tuple(sorted(random.sample(nodes, size - 1))))", 0, ["add_random_edges@inplace"], "loop0:preserved:drawn"),
     # ---- hygiene-only and behaviour-preserving changes: nothing may fail
     ("bfs: depth counter dropped from the queue records' use (same search)", "hypergraphx/utils/visits.py",
      "                queue.extend((n, depth + 1) for n in neighbors if n not in visited)", "                queue.extend((n, depth + 2) for n in neighbors if n not in visited)", 0, ["_bfs"], None),
